@@ -184,7 +184,7 @@ package main
 // Touch: the timestamp is set by path, under the volume lock and the file lock
 // (so that a block renamed away by a concurrent Trash makes Touch fail), never
 // on a read-only volume; nil only if Chtimes returned nil.
-//@ func UnixVolume.Touch property C04 safety -bounds
+//@ func UnixVolume.Touch property C02,C04 safety -bounds
 //@   ghost vlocked bool = false
 //@   ghost flocked bool = false
 //@   ghost cherr error = nil
@@ -218,8 +218,8 @@ package main
 // set without error.  Every Remove names the temp file, never the block path.
 // The temp name starts with "tmp" and therefore can never be listed by IndexTo
 // (lemma tmpNamesNeverMatch).  No other effectful call is permitted.
-//@ func UnixVolume.WriteBlock property C02 safety -bounds
-//@   only calls: UnixVolume.IsFull UnixVolume.blockDir UnixVolume.blockPath os.MkdirAll osWithStats.TempFile UnixVolume.lock UnixVolume.unlock io.Copy os.File.Close os.Chtimes osWithStats.Rename osWithStats.Remove statsTicker.TickOutBytes statsTicker.TickOps statsTicker.Tick
+//@ func UnixVolume.WriteBlock property C02,C04 safety -bounds
+//@   only calls: time.Now UnixVolume.IsFull UnixVolume.blockDir UnixVolume.blockPath os.MkdirAll osWithStats.TempFile UnixVolume.lock UnixVolume.unlock io.Copy os.File.Close os.Chtimes osWithStats.Rename osWithStats.Remove statsTicker.TickOutBytes statsTicker.TickOps statsTicker.Tick
 //@   ghost copied bool = false
 //@   ghost closed bool = false
 //@   ghost stamped bool = false
@@ -229,6 +229,13 @@ package main
 //@   calls io.Copy#1: set copied = ($r1 == nil)
 //@   calls os.File.Close#2: requires $recv == tmpfile
 //@   calls os.File.Close#2: set closed = ($r == nil)
+//@   # the stored timestamp is taken after the data has been written and the
+//@   # file closed (an acknowledged PUT is never backdated by lock waits or
+//@   # transfer time: the TTL clock of C04 starts at the acknowledgement)
+//@   ghost tnow time.Time = 0
+//@   calls time.Now#1: requires copied && closed
+//@   calls time.Now#1: set tnow = $r
+//@   calls os.Chtimes#1: requires $1 == tnow && $2 == tnow
 //@   calls os.Chtimes#1: requires copied && closed && $0 == os.File.Name(tmpfile)
 //@   calls os.Chtimes#1: set stamped = ($r == nil)
 //@   calls osWithStats.Rename#1: requires copied && closed && stamped && $0 == os.File.Name(tmpfile) && $1 == bpath
@@ -463,8 +470,6 @@ package main
 //@   calls BlockReader.ReadBlock#1: requires $recv == br && $1 == loc && $2 == iface(pipew)
 //@   calls BlockReader.ReadBlock#1: set rerr = $r
 //@   calls PipeWriter.CloseWithError#1: requires $0 == rerr
-//@ func getWithPipe$2 property C01,C02
-//@   calls io.ReadFull#1: requires $0 == iface(piper) && $1 == buf
 //@ func getWithPipe property C01,C02
 //@   ghost sel int = 0 - 1
 //@   at select#1: set sel = $index
@@ -474,3 +479,25 @@ package main
 // white space the WHOLE rest of the header value is the token (no character
 // class that could cut a token short).
 //@ lemma authPattern property C07: regexliteral(authRe) == "^(OAuth2|Bearer)\\s+(.*)"
+
+// lockfile / unlockfile: the per-file lock is a BSD flock(2) on the open file
+// (exclusive / unlock).  flock locks belong to the open file description, so
+// two goroutines of one keepstore process exclude each other (a POSIX fcntl
+// record lock would not: it belongs to the process); Touch and Trash rely on it.
+//@ func UnixVolume.lockfile property C04
+//@   ghost ferr error = nil
+//@   calls syscall.Flock#1: requires $1 == syscall.LOCK_EX
+//@   calls syscall.Flock#1: set ferr = $r
+//@   ensures result == ferr
+//@ func UnixVolume.unlockfile property C04
+//@   calls syscall.Flock#1: requires $1 == syscall.LOCK_UN
+
+// getWithPipe's consumer: a short or empty read is not an error by itself (the
+// caller verifies the digest of what was read; an empty block is a valid
+// block), any other read error is reported.
+//@ func getWithPipe$2 property C01,C02
+//@   ghost rerr error = nil
+//@   calls io.ReadFull#1: requires $0 == iface(piper) && $1 == buf
+//@   calls io.ReadFull#1: set rerr = $r1
+//@   ensures rerr == io.EOF || rerr == io.ErrUnexpectedEOF || rerr == nil ==> err == nil
+//@   ensures rerr != io.EOF && rerr != io.ErrUnexpectedEOF ==> err == rerr
